@@ -621,9 +621,9 @@ Theorem C11_limit_exec : forall ft, ft_ok ft = true ->
       sem ML (funs_of ft) n (prog_of body) c1 = Fin (sg, c2) /\ (sg = Normal \/ sg = Cont) /\ Inv c2) ->
   Inv c ->
   exists c', mpasses ft n (oexpr_of cnd) (prog_of body) (S m_N) c c' /\ Inv c' /\
-    wf (set_world c' (add_log (world c') (limit_msg false line))) /\
+    wf (set_world c' (add_log (world c') (limit_msg (s_ja (world c')) false line))) /\
     exec_s (S n) (SWhile cnd body line :: rest) (Ok (emb ft m c))
-    = exec_s (S n) rest (Ok (emb ft m (set_world c' (add_log (world c') (limit_msg false line))))).
+    = exec_s (S n) rest (Ok (emb ft m (set_world c' (add_log (world c') (limit_msg (s_ja (world c')) false line))))).
 Proof. exact while_limit_exec. Qed.
 Theorem C11_limit_for_exec : forall ft, ft_ok ft = true ->
   forall n (Inv : cfg (list ch) song vv -> Prop) init cnd inc body line rest m (c c0 : cfg (list ch) song vv),
@@ -638,9 +638,9 @@ Theorem C11_limit_for_exec : forall ft, ft_ok ft = true ->
     mfpasses ft n (oexpr_of cnd) (prog_of inc) (prog_of body) m_N c0 cl /\ Inv cl /\
     eval_opt ML (funs_of ft) (sem ML (funs_of ft) n) (Expr.SInt 0) (oexpr_of cnd) cl = Fin (v, c1) /\ Expr.to_b v = true /\
     sem ML (funs_of ft) n (prog_of body) c1 = Fin (sg, c2) /\ (sg = Normal \/ sg = Cont) /\
-    wf (set_world c2 (add_log (world c2) (limit_msg true line))) /\
+    wf (set_world c2 (add_log (world c2) (limit_msg (s_ja (world c2)) true line))) /\
     exec_s (S n) (SFor init cnd inc body line :: rest) (Ok (emb ft m c))
-    = exec_s (S n) rest (Ok (emb ft m (set_world c2 (add_log (world c2) (limit_msg true line))))).
+    = exec_s (S n) rest (Ok (emb ft m (set_world c2 (add_log (world c2) (limit_msg (s_ja (world c2)) true line))))).
 Proof. exact for_limit_exec. Qed.
 
 (* ------------------------------------------------------------------------------------------------ *)
